@@ -64,3 +64,22 @@ package accessory
 //@   ensures added: err == nil ==> len(m.Accessories) == old(len(m.Accessories)) + 1 && m.Accessories[len(m.Accessories) - 1] == a && a.ID != 0
 //@   ensures others: forall(i, 0, old(len(m.Accessories)), m.Accessories[i] == old(m.Accessories[i]) && m.Accessories[i].ID == old(m.Accessories[i].ID))
 //@   ensures rejected: err != nil ==> len(m.Accessories) == old(len(m.Accessories))
+
+// ---------------------------------------------------------------- attribute database seen by the HTTP handlers (C09, C13)
+//@ func (a *Accessory) GetServices() (result)
+//@   requires a != nil
+//@   pure
+//@   ensures fresh(result) || len(result) == 0
+//@   ensures len(result) == len(a.Services) && forall(i, 0, len(result), result[i] == a.Services[i])
+//@   loop 0
+//@     invariant idx: 0 <= loopidx && loopidx <= len(a.Services) && len(result) == loopidx && (cap(result) == 0 || !existed(result))
+//@     invariant copy: forall(i, 0, len(result), result[i] == a.Services[i])
+
+//@ func (a *Accessory) Identify()
+//@   requires a != nil
+//@   modifies heap, callcount
+
+// every characteristic reachable from the container is well typed (C12's invariant, lifted to the whole database)
+//@ pred charsOK(s) = forall(k, 0, len(s.Characteristics), s.Characteristics[k] != nil && wellTyped(s.Characteristics[k]) && finiteBounds(s.Characteristics[k]))
+//@ pred accOK(a) = a != nil && forall(j, 0, len(a.Services), a.Services[j] != nil && charsOK(a.Services[j]))
+//@ pred dbOK(m) = m != nil && forall(i, 0, len(m.Accessories), accOK(m.Accessories[i]))
